@@ -217,8 +217,29 @@ func (c *ChildEnv) WAL(format string, a ...any) {
 	c.wal.WriteString(s + "\n")
 }
 
+// HangCount is the number of hang violations recorded so far (a check stops early after a few: each
+// costs a full hard bound, and a child that ends in the outer watchdog reports nothing).
+func (r *Result) HangCount() int {
+	r.mu.Lock()
+	defer r.mu.Unlock()
+	n := 0
+	for _, v := range r.Violations {
+		if strings.Contains(v.Signature, "/hang") {
+			n++
+		}
+	}
+	for k, c := range r.Counters {
+		if strings.HasPrefix(k, "violations_suppressed:") && strings.Contains(k, "/hang") {
+			n += int(c)
+		}
+	}
+	return n
+}
+
 func (c *ChildEnv) WriteResult(r *Result) error {
+	r.mu.Lock()
 	b, err := json.Marshal(r)
+	r.mu.Unlock()
 	if err != nil {
 		return err
 	}
